@@ -1,5 +1,5 @@
 import VOPyVerif.Model.Covered
-import VOPyVerif.Proofs.LinCert
+import VOPyVerif.Proofs.LinCertComplete
 import Mathlib.Data.Set.Defs
 import Mathlib.Data.List.GetD
 /-!
@@ -11,7 +11,11 @@ import Mathlib.Data.List.GetD
                                C10 with an objective-space shift `s` *and* a per-facet margin `t`;
 * `rectSys_sat`              — a real point `z ++ z'` satisfies the LP `rectSys` iff `z`, `z'` are
                                in their boxes and `W (z' − z − s) ≥ t`;
-* `rectVerdict_yes`, `rectVerdict_no` — soundness of the certified rectangle verdicts.
+* `rectVerdictFast_yes/no`, `rectVerdict_yes/no` — soundness of the certified rectangle verdicts
+                               (fast path; fast path + complete fallback);
+* `rectSys_feasible_iff`, `rectSys_wf` — the LP is feasible over `ℝ` iff `Cov` holds; it is well formed;
+* `rectVerdict_total`, `rectVerdict_yes_iff`, `rectVerdict_no_iff` — the verdict is never `inconclusive`
+                               and decides `Cov` (uses `feasibleFM_complete`).
 -/
 namespace VOPy.Covered
 open VOPy.LinCert
@@ -203,13 +207,13 @@ theorem split_two (m : ℕ) (x : RVec) (hx : x.length = 2 * m) :
     ∃ z z' : RVec, x = z ++ z' ∧ z.length = m ∧ z'.length = m :=
   ⟨x.take m, x.drop m, (List.take_append_drop m x).symm, by simp [hx]; omega, by simp [hx]; omega⟩
 
-/-- **Rectangle verdict `yes` is sound.** -/
-theorem rectVerdict_yes (W : Mat) (l1 u1 l2 u2 s t : Vec)
+/-- fast path, `yes` is sound -/
+theorem rectVerdictFast_yes (W : Mat) (l1 u1 l2 u2 s t : Vec)
     (h1 : u1.length = l1.length) (h2 : l2.length = l1.length) (h3 : u2.length = l1.length)
     (hs : s.length = l1.length) (ht : W.length = t.length) (hW : ∀ w ∈ W, w.length = l1.length)
-    (h : rectVerdict W l1 u1 l2 u2 s t = .yes) :
+    (h : rectVerdictFast W l1 u1 l2 u2 s t = .yes) :
     Cov (box l1 u1) (box l2 u2) W s t := by
-  unfold rectVerdict at h
+  unfold rectVerdictFast at h
   simp only at h
   split at h
   · split at h
@@ -222,13 +226,13 @@ theorem rectVerdict_yes (W : Mat) (l1 u1 l2 u2 s t : Vec)
     · cases h
   · split at h <;> cases h
 
-/-- **Rectangle verdict `no` is sound.** -/
-theorem rectVerdict_no (W : Mat) (l1 u1 l2 u2 s t : Vec)
+/-- fast path, `no` is sound -/
+theorem rectVerdictFast_no (W : Mat) (l1 u1 l2 u2 s t : Vec)
     (h1 : u1.length = l1.length) (h2 : l2.length = l1.length) (h3 : u2.length = l1.length)
     (hs : s.length = l1.length) (ht : W.length = t.length) (hW : ∀ w ∈ W, w.length = l1.length)
-    (h : rectVerdict W l1 u1 l2 u2 s t = .no) :
+    (h : rectVerdictFast W l1 u1 l2 u2 s t = .no) :
     ¬ Cov (box l1 u1) (box l2 u2) W s t := by
-  unfold rectVerdict at h
+  unfold rectVerdictFast at h
   simp only at h
   split at h
   · split at h <;> cases h
@@ -239,5 +243,126 @@ theorem rectVerdict_no (W : Mat) (l1 u1 l2 u2 s t : Vec)
       exact (rectSys_sat W l1 u1 l2 u2 s t z z' h1 h2 h3 hs ht hW
         (InBox.length_eq hz).1 ((InBox.length_eq hz').1.trans h2)).2 ⟨hz, hz', hc⟩
     · cases h
+
+/-- **The LP is feasible over `ℝ` iff the semantic predicate holds.** -/
+theorem rectSys_feasible_iff (W : Mat) (l1 u1 l2 u2 s t : Vec)
+    (h1 : u1.length = l1.length) (h2 : l2.length = l1.length) (h3 : u2.length = l1.length)
+    (hs : s.length = l1.length) (ht : W.length = t.length) (hW : ∀ w ∈ W, w.length = l1.length) :
+    (∃ x : RVec, RSat (2 * l1.length) (rectSys W l1 u1 l2 u2 s t) x) ↔
+      Cov (box l1 u1) (box l2 u2) W s t := by
+  constructor
+  · rintro ⟨x, hx⟩
+    obtain ⟨z, z', hzz, hz, hz'⟩ := split_two l1.length _ hx.1
+    rw [hzz] at hx
+    have := (rectSys_sat W l1 u1 l2 u2 s t z z' h1 h2 h3 hs ht hW hz hz').1 hx
+    exact ⟨z, this.1, z', this.2.1, this.2.2⟩
+  · rintro ⟨z, hz, z', hz', hc⟩
+    exact ⟨z ++ z', (rectSys_sat W l1 u1 l2 u2 s t z z' h1 h2 h3 hs ht hW
+      (InBox.length_eq hz).1 ((InBox.length_eq hz').1.trans h2)).2 ⟨hz, hz', hc⟩⟩
+
+theorem unitVec_length : ∀ (n k : ℕ) (c : ℚ), (unitVec n k c).length = n
+  | 0, _, _ => rfl
+  | n + 1, 0, c => by simp [unitVec]
+  | n + 1, k + 1, c => by simp [unitVec, unitVec_length n k c]
+
+theorem axisRows_wf (n : ℕ) (c : ℚ) : ∀ (bs : Vec) (k : ℕ), ∀ r ∈ axisRows n c k bs, r.a.length = n
+  | [], _ => by simp [axisRows]
+  | b :: bs, k => by
+    intro r hr
+    simp only [axisRows, List.mem_cons] at hr
+    rcases hr with rfl | hr
+    · exact unitVec_length n k c
+    · exact axisRows_wf n c bs (k + 1) r hr
+
+/-- the LP of the code is well formed as soon as the cone rows have `m` entries -/
+theorem rectSys_wf (W : Mat) (l1 u1 l2 u2 s t : Vec) (hW : ∀ w ∈ W, w.length = l1.length) :
+    wf (2 * l1.length) (rectSys W l1 u1 l2 u2 s t) = true := by
+  rw [wf_iff]
+  intro r hr
+  simp only [rectSys, List.mem_append] at hr
+  rcases hr with (((hr | hr) | hr) | hr) | hr
+  · exact axisRows_wf _ _ _ _ r hr
+  · exact axisRows_wf _ _ _ _ r hr
+  · exact axisRows_wf _ _ _ _ r hr
+  · exact axisRows_wf _ _ _ _ r hr
+  · simp only [coneRows2] at hr
+    obtain ⟨i, hi, rfl⟩ := List.mem_iff_getElem.1 hr
+    simp only [List.getElem_zipWith, List.length_append, vneg_length]
+    rw [hW _ (List.getElem_mem _)]; omega
+
+/-- the verdict is the fast verdict when that is conclusive, the complete decision otherwise -/
+theorem rectVerdict_cases (W : Mat) (l1 u1 l2 u2 s t : Vec) (v : Verdict)
+    (h : rectVerdict W l1 u1 l2 u2 s t = v) (hv : v ≠ .inconclusive) :
+    rectVerdictFast W l1 u1 l2 u2 s t = v ∨
+    (v = .yes ∧ feasibleFM (2 * l1.length) (rectSys W l1 u1 l2 u2 s t) = some true) ∨
+    (v = .no ∧ feasibleFM (2 * l1.length) (rectSys W l1 u1 l2 u2 s t) = some false) := by
+  unfold rectVerdict at h
+  split at h
+  · split at h
+    · rename_i hf; exact Or.inr (Or.inl ⟨h.symm, hf⟩)
+    · rename_i hf; exact Or.inr (Or.inr ⟨h.symm, hf⟩)
+    · exact absurd h.symm hv
+  · exact Or.inl h
+
+/-- **Rectangle verdict `yes` is sound.** -/
+theorem rectVerdict_yes (W : Mat) (l1 u1 l2 u2 s t : Vec)
+    (h1 : u1.length = l1.length) (h2 : l2.length = l1.length) (h3 : u2.length = l1.length)
+    (hs : s.length = l1.length) (ht : W.length = t.length) (hW : ∀ w ∈ W, w.length = l1.length)
+    (h : rectVerdict W l1 u1 l2 u2 s t = .yes) :
+    Cov (box l1 u1) (box l2 u2) W s t := by
+  rcases rectVerdict_cases W l1 u1 l2 u2 s t _ h (by simp) with hf | ⟨-, hf⟩ | ⟨hv, -⟩
+  · exact rectVerdictFast_yes W l1 u1 l2 u2 s t h1 h2 h3 hs ht hW hf
+  · obtain ⟨x, hx⟩ := (feasibleFM_sound _ _).1 hf
+    exact (rectSys_feasible_iff W l1 u1 l2 u2 s t h1 h2 h3 hs ht hW).1
+      ⟨castV x, checkWitness_sound hx⟩
+  · cases hv
+
+/-- **Rectangle verdict `no` is sound.** -/
+theorem rectVerdict_no (W : Mat) (l1 u1 l2 u2 s t : Vec)
+    (h1 : u1.length = l1.length) (h2 : l2.length = l1.length) (h3 : u2.length = l1.length)
+    (hs : s.length = l1.length) (ht : W.length = t.length) (hW : ∀ w ∈ W, w.length = l1.length)
+    (h : rectVerdict W l1 u1 l2 u2 s t = .no) :
+    ¬ Cov (box l1 u1) (box l2 u2) W s t := by
+  rcases rectVerdict_cases W l1 u1 l2 u2 s t _ h (by simp) with hf | ⟨hv, -⟩ | ⟨-, hf⟩
+  · exact rectVerdictFast_no W l1 u1 l2 u2 s t h1 h2 h3 hs ht hW hf
+  · cases hv
+  · obtain ⟨y, hy⟩ := (feasibleFM_sound _ _).2 hf
+    exact fun hc => checkFarkas_sound hy
+      ((rectSys_feasible_iff W l1 u1 l2 u2 s t h1 h2 h3 hs ht hW).2 hc)
+
+/-- **The rectangle verdict is total**: with cone rows of the right length it is never
+`inconclusive` (completeness of Fourier–Motzkin elimination). -/
+theorem rectVerdict_total (W : Mat) (l1 u1 l2 u2 s t : Vec) (hW : ∀ w ∈ W, w.length = l1.length) :
+    rectVerdict W l1 u1 l2 u2 s t ≠ .inconclusive := by
+  unfold rectVerdict
+  split
+  · rcases feasibleFM_complete _ _ (rectSys_wf W l1 u1 l2 u2 s t hW) with h | h <;> rw [h] <;> simp
+  · rename_i hne; intro h; exact hne h
+
+/-- **The rectangle verdict decides** `Cov`: `yes ↔ Cov`. -/
+theorem rectVerdict_yes_iff (W : Mat) (l1 u1 l2 u2 s t : Vec)
+    (h1 : u1.length = l1.length) (h2 : l2.length = l1.length) (h3 : u2.length = l1.length)
+    (hs : s.length = l1.length) (ht : W.length = t.length) (hW : ∀ w ∈ W, w.length = l1.length) :
+    rectVerdict W l1 u1 l2 u2 s t = .yes ↔ Cov (box l1 u1) (box l2 u2) W s t := by
+  constructor
+  · exact rectVerdict_yes W l1 u1 l2 u2 s t h1 h2 h3 hs ht hW
+  · intro hc
+    cases hv : rectVerdict W l1 u1 l2 u2 s t with
+    | yes => rfl
+    | no => exact absurd hc (rectVerdict_no W l1 u1 l2 u2 s t h1 h2 h3 hs ht hW hv)
+    | inconclusive => exact absurd hv (rectVerdict_total W l1 u1 l2 u2 s t hW)
+
+/-- **The rectangle verdict decides** `Cov`: `no ↔ ¬Cov`. -/
+theorem rectVerdict_no_iff (W : Mat) (l1 u1 l2 u2 s t : Vec)
+    (h1 : u1.length = l1.length) (h2 : l2.length = l1.length) (h3 : u2.length = l1.length)
+    (hs : s.length = l1.length) (ht : W.length = t.length) (hW : ∀ w ∈ W, w.length = l1.length) :
+    rectVerdict W l1 u1 l2 u2 s t = .no ↔ ¬ Cov (box l1 u1) (box l2 u2) W s t := by
+  constructor
+  · exact rectVerdict_no W l1 u1 l2 u2 s t h1 h2 h3 hs ht hW
+  · intro hc
+    cases hv : rectVerdict W l1 u1 l2 u2 s t with
+    | yes => exact absurd (rectVerdict_yes W l1 u1 l2 u2 s t h1 h2 h3 hs ht hW hv) hc
+    | no => rfl
+    | inconclusive => exact absurd hv (rectVerdict_total W l1 u1 l2 u2 s t hW)
 
 end VOPy.Covered
